@@ -151,9 +151,52 @@ def run(tier):
         cmds += ["sumoff 0", "sumoff 1", "wrapreport"]
         cases.append(cmds)
         meta.append(("content", len(raw), "raw " + ",".join(how), variant, path, 0))
+    # the same file reached by other NAMES: through a symbolic link (also a chain of two, and a relative link), a hard link, a path with
+    # './', '//' and 'dir/..' components, with blanks and UTF-8 in its name, a long path (220 characters); and /dev/null (empty)
+    pdir = os.path.join(wd, "paths dir \u00e9\u4e2d")
+    os.makedirs(os.path.join(pdir, "sub"), exist_ok=True)
+    ptext = "mov rax, 0x7fffffff\nlea r15, [rax+rsp]\nadd rax, rbx\nret\n"
+    real = os.path.join(pdir, "real file.asm")
+    with open(real, "w") as f:
+        f.write(ptext)
+    names = []
+    def link(name, target):
+        pth = os.path.join(pdir, name)
+        if not os.path.lexists(pth):
+            os.symlink(target, pth)
+        return pth
+    names.append(("symlink", link("link1.asm", real)))
+    names.append(("symlink-chain", link("link2.asm", os.path.join(pdir, "link1.asm"))))
+    names.append(("symlink-relative", link("link3.asm", "real file.asm")))
+    hl = os.path.join(pdir, "hard.asm")
+    if not os.path.exists(hl):
+        os.link(real, hl)
+    names.append(("hardlink", hl))
+    names.append(("dot-components", os.path.join(pdir, ".", "sub", "..", "real file.asm")))
+    names.append(("double-slash", pdir + "//real file.asm"))
+    longd = os.path.join(wd, "d" * 100, "e" * 100)
+    os.makedirs(longd, exist_ok=True)
+    with open(os.path.join(longd, "long.asm"), "w") as f:
+        f.write(ptext)
+    names.append(("long-path", os.path.join(longd, "long.asm")))
+    names.append(("symlinked-directory", os.path.join(link("dlink", longd), "long.asm")))
+    for why, pth in names:
+        for variant in ("file", "filecnt"):
+            cmds = ["wrap reset", "wrap guardfiles 1", "new 0 int", "new 1 int"]
+            hp = "hex:" + common.hx(pth.encode("utf-8"))
+            cmds += ["file 0 %s" % hp, "asm 1 %s" % common.hx(ptext)] if variant == "file" else ["filecnt 0 8 %s" % hp, "cnt 1 8 %s" % common.hx(ptext)]
+            cmds += ["sumoff 0", "sumoff 1", "wrapreport"]
+            cases.append(cmds)
+            meta.append(("content", len(ptext), "name " + why, variant, pth, 0))
+    for variant in ("file", "filecnt"):
+        cmds = ["wrap reset", "wrap guardfiles 1", "new 0 int", "new 1 int"]
+        cmds += ["file 0 /dev/null", "asm 1 -"] if variant == "file" else ["filecnt 0 8 /dev/null", "cnt 1 8 -"]
+        cmds += ["sumoff 0", "sumoff 1", "wrapreport"]
+        cases.append(cmds)
+        meta.append(("content", 0, "name /dev/null", variant, "/dev/null", 0))
     # several files one after the other on the SAME instance (longer, then shorter, then empty, line-aligned or not): what an
     # earlier file call left behind (a cached mapping, a stale tail) must not show in a later one
-    made = [(m[4], m[1]) for m in meta if m[0] == "content" and m[3] == "file" and not m[2].startswith("raw")]
+    made = [(m[4], m[1]) for m in meta if m[0] == "content" and m[3] == "file" and not m[2].startswith(("raw", "name"))]
     meta = [tuple(m) + ((0,) if len(m) == 5 else ()) for m in meta]
     texts = {}
     for pth, _ in made:
@@ -296,7 +339,7 @@ def run(tier):
                 v.distinct((kind, off, b, os.path.basename(path)))
     v.cov["rule"] = ("file contents of EVERY size 0..64 and every size within +/-16 of 1, 2 and 3 pages x 6 endings (newline, none, inside a comment, inside an instruction, a complete instruction / ret as last line without newline; CRLF lines inside) x both file entry points, plus valid programs with byte-level damage (byte order marks and other prefixes, any byte value 1..255 inserted / replaced at the beginning, the end, line starts or anywhere, odd line separators), "
                      "differentially against the string entry points on the same content under the same settings (option combination, chunk fitting, start offset; the contents contain option-sensitive lines) (rc, offset, count, FNV of the code); ld --wrap mmap puts a PROT_NONE page right after every non-executable mapping the "
-                     "library creates, so a missing terminator faults deterministically; missing / directory / ENOTDIR paths must fail and leave the instance usable; asm_create_bin_file at offsets 0,1,2,19,4095..4097,6000,20000,65535..65537,2^20+5 must equal [0,offset), also onto existing longer / shorter files, through a symlink, and twice to the same path (more code; offset moved back); sequences of 2-6 file calls of (mostly) decreasing size, ending with an empty file, on ONE instance, each step compared with the string entry point")
+                     "library creates, so a missing terminator faults deterministically; the same file reached through symbolic links (chain, relative, symlinked directory), a hard link, './' '//' 'dir/..' components, blanks and UTF-8 in the name, a 220-character path, and /dev/null; missing / directory / ENOTDIR paths must fail and leave the instance usable; asm_create_bin_file at offsets 0,1,2,19,4095..4097,6000,20000,65535..65537,2^20+5 must equal [0,offset), also onto existing longer / shorter files, through a symlink, and twice to the same path (more code; offset moved back); sequences of 2-6 file calls of (mostly) decreasing size, ending with an empty file, on ONE instance, each step compared with the string entry point")
     v.cov["exhaustive"] = True
     v.cov.update(stats)
     return v.finish(None, stats["content_cases"] > 300 and stats["guarded_mappings"] > 100, "too few file cases / guard never active: %r" % stats)
